@@ -269,6 +269,12 @@ def check(ctx: Ctx):
         ctx.undecided("R07.2", None, None, "R07.2:check_chain", f"{type(e).__name__}: {e}")
     c03.check_no_pruning(ctx)
     c03._guarded(ctx, "R03.2", c03.check_candidates)
+    # the backend (and with it the connectivity) must depend on the dimensionality only, so that
+    # embedding/padding cannot change which library labels the components
+    from . import c05
+
+    c03._guarded(ctx, "R05.1", c05.check_dispatch)
+    c03._guarded(ctx, "R05.2", c05.check_library_calls)
 
 
 _N = "panoptica/utils/numpy_utils.py"
